@@ -21,6 +21,11 @@ TList(e) == [k |-> "list", e |-> e]
 TDict(v) == [k |-> "dict", v |-> v]                    \* keys are str
 TTuple(a, b) == [k |-> "tuple", a |-> a, b |-> b]
 TC == [k |-> "C"]   TE == [k |-> "E"]
+\* a generic class G[T] instantiated with an argument, its subclass IG(G[int]), and the type variable itself (which
+\* occurs in the declarations of G only - never in the type of an expression)
+TG(a) == [k |-> "G", a |-> a]
+TIG == [k |-> "IG", a |-> [k |-> "int"]]
+TVar == [k |-> "tvar"]
 \* a declared name for a type (TypeAlias) and an optional: both are transparent for what can be done with the value
 TAlias(name, t) == [k |-> "alias", name |-> name, t |-> t]
 TOpt(t) == [k |-> "opt", t |-> t]
@@ -29,6 +34,14 @@ RECURSIVE U(_), Plain(_)
 U(t) == IF t.k \in {"alias", "opt", "optn"} THEN U(t.t) ELSE t
 Plain(t) == CASE t.k \in {"alias", "opt", "optn"} -> FALSE [] t.k = "list" -> Plain(t.e) [] t.k = "dict" -> Plain(t.v) [] t.k = "tuple" -> Plain(t.a) /\ Plain(t.b) [] OTHER -> TRUE
 
+\* the declared type of a member of G with the type variable replaced by the argument of the receiver
+RECURSIVE Subst(_, _)
+Subst(t, a) == CASE t.k = "tvar" -> a
+                 [] t.k = "list" -> [t EXCEPT !.e = Subst(t.e, a)]
+                 [] t.k = "dict" -> [t EXCEPT !.v = Subst(t.v, a)]
+                 [] t.k = "tuple" -> [t EXCEPT !.a = Subst(t.a, a), !.b = Subst(t.b, a)]
+                 [] t.k \in {"opt", "optn"} -> [t EXCEPT !.t = Subst(t.t, a)]
+                 [] OTHER -> t
 RECURSIVE Describe(_)
 Describe(t) == CASE t.k = "list" -> "list<" \o Describe(t.e) \o ">"
                  [] t.k = "dict" -> "dict<str, " \o Describe(t.v) \o ">"
@@ -36,6 +49,7 @@ Describe(t) == CASE t.k = "list" -> "list<" \o Describe(t.e) \o ">"
                  [] t.k = "alias" -> t.name \o "=" \o Describe(t.t)
                  [] t.k = "opt" -> "Union<" \o Describe(t.t) \o ", None>"
                  [] t.k = "optn" -> "Union<None, " \o Describe(t.t) \o ">"
+                 [] t.k \in {"G", "IG"} -> t.k \o "<" \o Describe(t.a) \o ">"
                  [] OTHER -> t.k
 \* the type the VALUE has at run time (an alias is its target, an optional that holds a value is that value's type)
 RECURSIVE RunTime(_)
@@ -43,6 +57,7 @@ RunTime(t) == CASE t.k = "list" -> "list<" \o RunTime(t.e) \o ">"
                 [] t.k = "dict" -> "dict<str, " \o RunTime(t.v) \o ">"
                 [] t.k = "tuple" -> "tuple<" \o RunTime(t.a) \o ", " \o RunTime(t.b) \o ">"
                 [] t.k \in {"alias", "opt", "optn"} -> RunTime(t.t)
+                [] t.k \in {"G", "IG"} -> t.k \o "<" \o RunTime(t.a) \o ">"
                 [] OTHER -> t.k
 
 \* p = Python precedence level of the outermost construct (16 = atom / postfix chain)
@@ -61,13 +76,19 @@ Vars == { R("n", TInt), R("x", TFloat), R("b", TBool), R("s", TStr),
           R("c", TC), R("e", TE), R("xss", TList(TList(TInt))), R("dl", TDict(TList(TFloat))), R("cs", TList(TC)),
           R("xa", TAlias("Ints", TList(TInt))), R("rows", TAlias("Rows", TList(TList(TInt)))), R("da", TAlias("DS", TDict(TInt))),
           R("xo", TOpt(TList(TInt))), R("co", TOpt(TC)), R("lo", TOpt(TList(TC))),
-          R("xn", TOptN(TList(TInt))), R("cn", TOptN(TC)), R("ln", TOptN(TList(TC))) }
+          R("xn", TOptN(TList(TInt))), R("cn", TOptN(TC)), R("ln", TOptN(TList(TC))),
+          R("gi", TG(TInt)), R("gs", TG(TStr)), R("ig", TIG) }
+\* members of G: fields and methods whose declared types hold the type variable at depth 0, 1 and 2, under an optional
+GFields == { <<"v", TVar>>, <<"vs", TList(TVar)>>, <<"rows", TList(TList(TVar))>>, <<"idx", TDict(TList(TVar))>>,
+             <<"opt", TOpt(TVar)>>, <<"spare", TOpt(TList(TVar))>>, <<"pair", TTuple(TVar, TList(TVar))>> }
+GMethods == { <<"get", TVar>>, <<"all", TList(TVar)>>, <<"grid", TList(TList(TVar))>> }
 Lits == { X("1", TInt), X("1.5", TFloat), X("True", TBool), X("'a'", TStr), X("C(2)", TC), X("E.A", TE) }
 
 \* one generation step: every expression obtainable from sub-expressions in S by one construct
 Step(S0) ==
   LET \* consumers see through aliases and optionals (views); producers of new containers take plain operands only
-      S == {z \in S0 : Plain(z.ty)} \cup {[z EXCEPT !.ty = U(z.ty), !.view = TRUE] : z \in {y \in S0 : y.ty.k \in {"alias", "opt", "optn"}}}
+      S == {z \in S0 : Plain(z.ty)} \cup {[z EXCEPT !.ty = U(z.ty), !.view = TRUE] : z \in {y \in S0 : y.ty.k \in {"alias", "opt", "optn"} /\ U(y.ty).k \notin {"int", "float", "bool", "str"}}}
+      \* (an optional scalar is not an operand of arithmetic: `opt + 1` is not well-typed without narrowing, tranp refuses it)
       SP == {z \in S : ~z.view}
   IN
   S0
@@ -84,6 +105,8 @@ Step(S0) ==
   \cup {R(W(e, 16) \o ".m()", TStr) : e \in {z \in S : z.ref /\ z.ty.k = "C"}}
   \cup {R(W(e, 16) \o ".p", TList(TInt)) : e \in {z \in S : z.ref /\ z.ty.k = "C"}}
   \cup {R(W(e, 16) \o ".value", TInt) : e \in {z \in S : z.ref /\ z.ty.k = "E"}}
+  \cup {R(W(e, 16) \o "." \o f[1], Subst(f[2], e.ty.a)) : e \in {z \in S : z.ref /\ z.ty.k \in {"G", "IG"}}, f \in GFields}
+  \cup {R(W(e, 16) \o "." \o f[1] \o "()", Subst(f[2], e.ty.a)) : e \in {z \in S : z.ref /\ z.ty.k \in {"G", "IG"}}, f \in GMethods}
   \cup {X("[v for v in " \o W(e, 3) \o "]", e.ty) : e \in {z \in S : z.ty.k = "list"}}
   \cup {X("[len(v) for v in " \o W(e, 3) \o "]", TList(TInt)) : e \in {z \in S : z.ty.k = "list" /\ z.ty.e.k \in {"str", "list"}}}
   \cup {X("{k2: v2 for k2, v2 in " \o W(e, 16) \o ".items()}", e.ty) : e \in {z \in S : z.ref /\ z.ty.k = "dict"}}
@@ -116,6 +139,7 @@ RECURSIVE Determined(_)
 Determined(t) == CASE t.k = "list" -> Determined(t.e) [] t.k = "dict" -> Determined(t.v)
                    [] t.k = "tuple" -> Determined(t.a) /\ Determined(t.b)
                    [] t.k \in {"alias", "opt", "optn"} -> Determined(t.t)
+                   [] t.k \in {"G", "IG"} -> Determined(t.a)
                    [] OTHER -> t.k \in {"int", "float", "bool", "str", "C", "E"}
 Total == \A e \in Universe : Determined(e.ty)
 
